@@ -48,11 +48,14 @@ def cases(tier, seed):
             yield {"c": list(c)}
     rng = gen.sub_rng(seed, ID, "random")
     # a few residues of one sign in front of a long block of the other, with 0 .. 40 neutral residues
-    for c in [(90, 1, 18), (1, 85, 19), (2, 100, 18), (120, 1, 22), (1, 150, 30), (1, 70, 17), (66, 1, 18)]:
+    for c in [(90, 1, 18), (1, 85, 19), (2, 100, 18), (120, 1, 22), (1, 150, 30), (1, 70, 17), (66, 1, 18), (43, 6, 0), (7, 50, 0), (30, 0, 18),
+              (0, 33, 22), (27, 0, 18)]:
         yield {"c": list(c), "sparse": 1}
     for i in range(NRANDOM[tier] // 12):
-        minority = rng.choice([1, 1, 2, 3])
+        minority = rng.choice([1, 1, 2, 3, rng.randint(4, 10)])
         majority = gen.loglen(rng, 10, 170)
+        if minority > 3:
+            majority = min(90, minority * rng.randint(5, 12))
         z = rng.choice([0, rng.randint(1, 17), 18, rng.randint(18, 40)])
         yield {"c": [minority, majority, z] if rng.random() < 0.5 else [majority, minority, z], "sparse": 1}
     for i in range(NRANDOM[tier]):
